@@ -32,7 +32,7 @@ func init() {
 		if err != nil {
 			return err
 		}
-		fd := findFunc(cf, "Conn", "handleCloseError")
+		fd := closeFindFunc(cf, "Conn", "handleCloseError")
 		if fd == nil {
 			return fmt.Errorf("connection.go: (*Conn).handleCloseError not found")
 		}
@@ -56,18 +56,18 @@ func init() {
 			}
 			var parts []string
 			for _, e := range cc.List {
-				parts = append(parts, exprLabel(e))
+				parts = append(parts, closeExprLabel(e))
 			}
 			labels = append(labels, strings.Join(parts, "|"))
 		}
 		w.P("/-- connection.go handleCloseError: case clauses of the classification switch, in order -/")
-		w.P("def closeSwitchOrder : List String := [%s]", quoteJoin(labels))
+		w.P("def closeSwitchOrder : List String := [%s]", closeQuoteJoin(labels))
 		// the deferred call that must run last
 		deferred := ""
 		for _, st := range fd.Body.List {
 			if d, ok := st.(*ast.DeferStmt); ok {
 				if _, isLit := d.Call.Fun.(*ast.FuncLit); !isLit {
-					deferred = exprLabel(d.Call.Fun)
+					deferred = closeExprLabel(d.Call.Fun)
 				}
 			}
 		}
@@ -83,22 +83,22 @@ func init() {
 			if err != nil {
 				return err
 			}
-			dd := findFunc(f, it.recv, "doDial")
+			dd := closeFindFunc(f, it.recv, "doDial")
 			if dd == nil {
 				return fmt.Errorf("%s: doDial not found", it.file)
 			}
-			shape, err := cancelShape(dd)
+			shape, err := closeCancelShape(dd)
 			if err != nil {
 				return fmt.Errorf("%s: %v", it.file, err)
 			}
 			w.P("/-- %s doDial: statements of `case <-ctx.Done():` (calls, nested select receive channels, return) -/", it.file)
-			w.P("def %s : List String := [%s]", it.lean, quoteJoin(shape))
+			w.P("def %s : List String := [%s]", it.lean, closeQuoteJoin(shape))
 		}
 		return nil
 	})
 }
 
-func quoteJoin(l []string) string {
+func closeQuoteJoin(l []string) string {
 	q := make([]string, len(l))
 	for i, s := range l {
 		q[i] = fmt.Sprintf("%q", s)
@@ -106,7 +106,7 @@ func quoteJoin(l []string) string {
 	return strings.Join(q, ", ")
 }
 
-func findFunc(f *ast.File, recv, name string) *ast.FuncDecl {
+func closeFindFunc(f *ast.File, recv, name string) *ast.FuncDecl {
 	for _, d := range f.Decls {
 		fd, ok := d.(*ast.FuncDecl)
 		if !ok || fd.Name.Name != name || fd.Recv == nil || len(fd.Recv.List) != 1 {
@@ -123,30 +123,30 @@ func findFunc(f *ast.File, recv, name string) *ast.FuncDecl {
 	return nil
 }
 
-// exprLabel renders the few expression shapes we care about as short text.
-func exprLabel(e ast.Expr) string {
+// closeExprLabel renders the few expression shapes we care about as short text.
+func closeExprLabel(e ast.Expr) string {
 	switch x := e.(type) {
 	case *ast.Ident:
 		return x.Name
 	case *ast.SelectorExpr:
-		return exprLabel(x.X) + "." + x.Sel.Name
+		return closeExprLabel(x.X) + "." + x.Sel.Name
 	case *ast.UnaryExpr:
-		return x.Op.String() + exprLabel(x.X)
+		return x.Op.String() + closeExprLabel(x.X)
 	case *ast.BasicLit:
 		return x.Value
 	case *ast.CallExpr:
 		var args []string
 		for _, a := range x.Args {
-			args = append(args, exprLabel(a))
+			args = append(args, closeExprLabel(a))
 		}
-		return exprLabel(x.Fun) + "(" + strings.Join(args, ",") + ")"
+		return closeExprLabel(x.Fun) + "(" + strings.Join(args, ",") + ")"
 	case *ast.ParenExpr:
-		return "(" + exprLabel(x.X) + ")"
+		return "(" + closeExprLabel(x.X) + ")"
 	}
 	return fmt.Sprintf("%T", e)
 }
 
-func cancelShape(dd *ast.FuncDecl) ([]string, error) {
+func closeCancelShape(dd *ast.FuncDecl) ([]string, error) {
 	var outer *ast.SelectStmt
 	for _, st := range dd.Body.List {
 		if s, ok := st.(*ast.SelectStmt); ok {
@@ -159,14 +159,14 @@ func cancelShape(dd *ast.FuncDecl) ([]string, error) {
 	for _, st := range outer.Body.List {
 		cc := st.(*ast.CommClause)
 		es, ok := cc.Comm.(*ast.ExprStmt)
-		if !ok || exprLabel(es.X) != "<-ctx.Done()" {
+		if !ok || closeExprLabel(es.X) != "<-ctx.Done()" {
 			continue
 		}
 		var out []string
 		for _, b := range cc.Body {
 			switch s := b.(type) {
 			case *ast.ExprStmt:
-				out = append(out, "call:"+exprLabel(s.X))
+				out = append(out, "call:"+closeExprLabel(s.X))
 			case *ast.SelectStmt:
 				var chans []string
 				for _, in := range s.Body.List {
@@ -174,7 +174,7 @@ func cancelShape(dd *ast.FuncDecl) ([]string, error) {
 					if ic.Comm == nil {
 						chans = append(chans, "default")
 					} else if ie, ok := ic.Comm.(*ast.ExprStmt); ok {
-						chans = append(chans, exprLabel(ie.X))
+						chans = append(chans, closeExprLabel(ie.X))
 					} else {
 						chans = append(chans, "?")
 					}
@@ -186,7 +186,7 @@ func cancelShape(dd *ast.FuncDecl) ([]string, error) {
 			case *ast.ReturnStmt:
 				var rs []string
 				for _, r := range s.Results {
-					rs = append(rs, exprLabel(r))
+					rs = append(rs, closeExprLabel(r))
 				}
 				out = append(out, "return:"+strings.Join(rs, ","))
 			default:
